@@ -178,6 +178,34 @@ class WT:
         items = [(self.ev(f, k, env, depth), self.ev(f, v, env, depth)) for k, v in zip(e.keys, e.values)]
         return ('dict', tuple(sorted(items, key=key)))
 
+    def _items(self, it):
+        """the items of a literal iterable term: tuple, enumerate(tuple), zip(tuples), range(const) - else None"""
+        if it[0] == 'tuple':
+            return list(it[1])
+        if it[0] == 'call' and it[1] in ('builtins.enumerate', ('global', 'enumerate')) and it[2] and it[2][0][0] == 'tuple':
+            return [('tuple', (('const', i), x)) for i, x in enumerate(it[2][0][1])]
+        if it[0] == 'call' and it[1] in ('builtins.zip', ('global', 'zip')) and it[2] and all(a[0] == 'tuple' for a in it[2]):
+            return [('tuple', tuple(xs)) for xs in zip(*[a[1] for a in it[2]])]
+        if it[0] == 'call' and it[1] in ('builtins.range', ('global', 'range')) and len(it[2]) == 1 and it[2][0][0] == 'const' and \
+                isinstance(it[2][0][1], int) and 0 <= it[2][0][1] <= 8:
+            return [('const', i) for i in range(it[2][0][1])]
+        return None
+
+    def e_ListComp(self, f, e, env, depth):
+        if len(e.generators) == 1 and not e.generators[0].ifs:
+            g = e.generators[0]
+            items = self._items(self.ev(f, g.iter, env, depth))
+            if items is not None and len(items) <= 8:
+                out = []
+                for it in items:
+                    e2 = dict(env)
+                    self.assign(f, g.target, it, e2, depth, e)
+                    out.append(self.ev(f, e.elt, e2, depth))
+                return ('tuple', tuple(out))
+        return ('other', norm(e))
+
+    e_GeneratorExp = e_ListComp
+
     def e_Lambda(self, f, e, env, depth):
         return ('lambda', norm(e))
 
@@ -310,6 +338,11 @@ class WT:
                 cur = self.ev(f, s.target, env, depth)
                 v = self.ev(f, ast.BinOp(left=s.target, op=s.op, right=s.value), env, depth)
                 self.assign(f, s.target, v, env, depth, s)
+            elif isinstance(s, ast.Expr) and isinstance(s.value, ast.Call) and isinstance(s.value.func, ast.Attribute) and \
+                    s.value.func.attr == 'append' and isinstance(s.value.func.value, ast.Name) and \
+                    isinstance(env.get(s.value.func.value.id), tuple) and env[s.value.func.value.id][0] == 'tuple' and len(s.value.args) == 1:
+                nm_ = s.value.func.value.id          # a literal list that grows: still a literal list
+                env[nm_] = ('tuple', env[nm_][1] + (self.ev(f, s.value.args[0], env, depth),))
             elif isinstance(s, ast.Expr):
                 self.ev(f, s.value, env, depth)
             elif isinstance(s, ast.If):
@@ -348,6 +381,18 @@ class WT:
             elif isinstance(s, ast.Raise):
                 self.raises.append((list(self.guards), s))
                 break
+            elif isinstance(s, ast.For) and self._items(self.ev(f, s.iter, env, depth)) is not None and \
+                    len(self._items(self.ev(f, s.iter, env, depth))) <= 8 and not s.orelse and \
+                    not any(isinstance(x, (ast.Break, ast.Continue)) for x in ast.walk(s)):
+                # a loop over a short literal collection is written out
+                for it_ in self._items(self.ev(f, s.iter, env, depth)):
+                    self.assign(f, s.target, it_, env, depth, s)
+                    e1, r1 = self.block(f, s.body, env, depth)
+                    if r1 is not None:
+                        ret = r1
+                        break
+                if ret is not None:
+                    break
             elif isinstance(s, (ast.For, ast.While)):
                 # glue loops are rare: the body is evaluated once with the loop variable as an element of the iterable
                 if isinstance(s, ast.For):
